@@ -178,8 +178,8 @@ func TestC07(t *testing.T) {
 		for _, n := range ms.vn.Nodes {
 			env.all = append(env.all, n.IP())
 		}
-		attackerID := ids.Group("ea")[c.Pick("attacker.id", len(ids.Group("ea")))]
-		unknownID := ids.Group("af")[c.Pick("unknown.id", len(ids.Group("af")))]
+		attackerID := ms.outsider(ids.Group("ea"), c.Pick("attacker.id", len(ids.Group("ea"))))
+		unknownID := ms.outsider(ids.Group("af"), c.Pick("unknown.id", len(ids.Group("af"))))
 		env.all = append(env.all, attackerID.Addr.IP, unknownID.Addr.IP)
 		c.Note("topology %s victim=n%d x=%s firstContact=%v", topo, vi, X.Name, firstContact)
 
